@@ -71,6 +71,10 @@ func ghostSort(kind string) string {
 		return "(Array Int Slice)"
 	case "real":
 		return "Real"
+	case "rank":
+		return "Rank"
+	case "rankseq":
+		return "(Array Int Rank)"
 	case "str":
 		return "Str"
 	}
@@ -148,6 +152,20 @@ func (env *specEnv) eval(e ast.Expr) Val {
 			}
 			return Val{T: t, Sort: "Bool"}
 		case token.LSS, token.LEQ, token.GTR, token.GEQ:
+			if a.sortIn(sc) == "Rank" && b.sortIn(sc) == "Rank" {
+				// ranks of byte strings: compared by the total order rank.le
+				fv.eng.needBytesRank()
+				switch e.Op {
+				case token.LEQ:
+					return Val{T: "(rank.le " + a.T + " " + b.T + ")", Sort: "Bool"}
+				case token.GEQ:
+					return Val{T: "(rank.le " + b.T + " " + a.T + ")", Sort: "Bool"}
+				case token.LSS:
+					return Val{T: "(not (rank.le " + b.T + " " + a.T + "))", Sort: "Bool"}
+				default:
+					return Val{T: "(not (rank.le " + a.T + " " + b.T + "))", Sort: "Bool"}
+				}
+			}
 			op := map[token.Token]string{token.LSS: "<", token.LEQ: "<=", token.GTR: ">", token.GEQ: ">="}[e.Op]
 			return Val{T: "(" + op + " " + a.T + " " + b.T + ")", Sort: "Bool"}
 		case token.ADD:
@@ -502,12 +520,12 @@ func (env *specEnv) call(e *ast.CallExpr) Val {
 	case "brank":
 		// brank(b): rank of the contents of byte slice b in lexicographic order (see rankTerm)
 		if !need(1) {
-			return Val{T: "0.0", Sort: "Real"}
+			return Val{T: "0", Sort: "Int"}
 		}
 		x := arg(0)
 		fv.eng.needBytesRank()
 		hh := sc.sliceHeap(types.Typ[types.Uint8])
-		return Val{T: "(bytes.rank (select " + env.heapRead(hh, x) + " " + sRef(x.T) + ") " + sOff(x.T) + " " + sLen(x.T) + ")", Sort: "Real"}
+		return Val{T: "(bytes.rank (select " + env.heapRead(hh, x) + " " + sRef(x.T) + ") " + sOff(x.T) + " " + sLen(x.T) + ")", Sort: "Rank"}
 	case "sprintf":
 		// sprintf("format", args...): the engine's model of fmt.Sprintf for that constant format
 		if lit, ok := e.Args[0].(*ast.BasicLit); ok {
@@ -793,7 +811,7 @@ type predDef struct {
 // paramVal builds a formal parameter value of the given kind (ghost kind or Go type expression).
 func (eng *Engine) paramVal(fv *FuncVerifier, name, kind, pkgPath string) (Val, string) {
 	switch kind {
-	case "int", "bool", "seq", "seqseq", "slice", "sliceseq", "real", "str":
+	case "int", "bool", "seq", "seqseq", "slice", "sliceseq", "real", "str", "rank", "rankseq":
 		return Val{T: name, Sort: ghostSort(kind)}, ghostSort(kind)
 	}
 	p := eng.pkgs[pkgPath]
